@@ -1,5 +1,6 @@
 import B6.Model.Shell
 import B6.Lemmas.Shell
+import B6.Lemmas.ShellSpans
 /-!
 # C20 — Printed shell expressions parse back to the same expression
 
@@ -19,7 +20,7 @@ The lexer, `%q`, `strconv` and goyacc's tables are outside the theorems (the tie
 positioned parse tree with the real `UnparseExpression` / `ParseExpression` on every generated case).
 -/
 namespace B6.Props.C20
-open B6.Model.Shell B6.Model.FeatureID B6.Lemmas.Shell
+open B6.Model.Shell B6.Model.FeatureID B6.Lemmas.Shell B6.Lemmas.ShellSpans
 
 /-- **Print, then parse.**  For every expression in the printable subset, of any depth: the printer
 succeeds with some tokens `ts`, and for every way of placing those tokens in a text (`pts`: the same
@@ -36,5 +37,98 @@ theorem parse_unparse_tokens (e : SE) (esc : Bool) (hp : e.printable esc = true)
   simp only [parseTop, hF]
   rw [show F + 1 + n = (F + n) + 1 by omega, pipeLoop_stop pe [] (by simp [headTok]) (F + n)]
   rfl
+
+mutual
+/-- the printer neither fails nor panics on the printable subset -/
+theorem printable_toks_ok : ∀ (e : SE) (esc : Bool), e.printable esc = true →
+    (∃ ts, e.toks true = .ok ts) ∧ (∃ ts, e.toks false = .ok ts)
+  | .sym s, _, _ => ⟨⟨_, rfl⟩, ⟨_, rfl⟩⟩
+  | .lit l, _, _ => ⟨⟨_, rfl⟩, ⟨_, rfl⟩⟩
+  | .lambda ps body, esc, hp => by
+    simp only [SE.printable, Bool.and_eq_true] at hp
+    obtain ⟨⟨bt, hb⟩, _⟩ := printable_toks_ok body esc hp.2
+    exact ⟨⟨_, by simp only [SE.toks, hb, UR.ok_bind]; rfl⟩, ⟨_, by simp only [SE.toks, hb, UR.ok_bind]; rfl⟩⟩
+  | .call f .nil false, esc, hp => by
+    simp only [SE.printable, Bool.and_eq_true] at hp
+    obtain ⟨⟨ft, hf⟩, ⟨ff, hff⟩⟩ := printable_toks_ok f esc hp.1.2
+    exact ⟨⟨_, by simp only [SE.toks, hf]; rfl⟩, ⟨_, by simp only [SE.toks, hff, SEL.toks, UR.ok_bind]; rfl⟩⟩
+  | .call f (.cons a as) false, esc, hp => by
+    simp only [SE.printable, Bool.and_eq_true] at hp
+    obtain ⟨_, ⟨ff, hff⟩⟩ := printable_toks_ok f esc hp.1.2
+    obtain ⟨ats, hats⟩ := printableArgs_toks_ok (.cons a as) esc hp.2
+    exact ⟨⟨_, by simp only [SE.toks, hff, hats, UR.ok_bind]; rfl⟩, ⟨_, by simp only [SE.toks, hff, hats, UR.ok_bind]; rfl⟩⟩
+  | .call _ .nil true, _, hp => by simp [SE.printable] at hp
+  | .call f (.cons a0 .nil) true, esc, hp => by
+    simp only [SE.printable, Bool.and_eq_true] at hp
+    obtain ⟨⟨ft, hf⟩, _⟩ := printable_toks_ok f esc hp.1
+    obtain ⟨⟨lhs, hl⟩, _⟩ := printable_toks_ok a0 esc hp.2
+    exact ⟨⟨_, by simp only [SE.toks, hl, hf, UR.ok_bind]; rfl⟩, ⟨_, by simp only [SE.toks, hl, hf, UR.ok_bind]; rfl⟩⟩
+  | .call f (.cons a0 (.cons a1 as)) true, esc, hp => by
+    simp only [SE.printable, Bool.and_eq_true] at hp
+    obtain ⟨_, ⟨ff, hff⟩⟩ := printable_toks_ok f esc hp.1.1.2
+    obtain ⟨⟨lhs, hl⟩, _⟩ := printable_toks_ok a0 esc hp.1.2
+    obtain ⟨ats, hats⟩ := printableArgs_toks_ok (.cons a1 as) esc hp.2
+    exact ⟨⟨_, by simp only [SE.toks, hl, hff, hats, UR.ok_bind]; rfl⟩, ⟨_, by simp only [SE.toks, hl, hff, hats, UR.ok_bind]; rfl⟩⟩
+theorem printableArgs_toks_ok : ∀ (es : SEL) (esc : Bool), es.printable esc = true → ∃ ts, es.toks = .ok ts
+  | .nil, _, _ => ⟨_, rfl⟩
+  | .cons e es, esc, hp => by
+    simp only [SEL.printable, Bool.and_eq_true] at hp
+    obtain ⟨_, ⟨t, ht⟩⟩ := printable_toks_ok e esc hp.1
+    obtain ⟨ts, hts⟩ := printableArgs_toks_ok es esc hp.2
+    exact ⟨_, by simp only [SEL.toks, ht, hts, UR.ok_bind]; rfl⟩
+end
+
+/-- **Spans nest.**  For any token list whose positions are in order (`Sorted`), whatever the parser
+returns — for *any* input, printed or not — has every node's `[begin, end)` non-empty-or-empty but ordered,
+inside its parent's, and starting at or after the first token. -/
+theorem span_nesting (F lo : Nat) (pts : List PTok) (pe : PE) (hs : Sorted lo pts)
+    (h : parseTop F pts = .ok pe) : pe.nested = true ∧ lo ≤ pe.b ∧ pe.b ≤ pe.e := by
+  simp only [parseTop] at h
+  obtain ⟨⟨e, r⟩, h1, h2⟩ := B6.Lemmas.ShellSpans.PR.bind_ok _ _ _ h
+  obtain ⟨hn, hb, hbe, _⟩ := (spans F).1 lo pts e r hs h1
+  cases r with
+  | nil =>
+    simp only [PR.ok.injEq] at h2
+    subst h2
+    exact ⟨hn, hb, hbe⟩
+  | cons x xs => simp at h2
+
+/-- **The property, at token level.**  A printable expression prints; its tokens, laid out at any ordered
+positions, parse to the normal form of the expression; and the spans of the parsed tree nest. -/
+theorem print_parse_roundtrip (e : SE) (esc : Bool) (hp : e.printable esc = true) :
+    ∃ ts, e.toks true = .ok ts ∧ ∀ (pts : List PTok) (lo : Nat), toksOf pts = ts → Sorted lo pts →
+      ∃ n pe, PE.strip pe = e.normC ∧ pe.nested = true ∧ lo ≤ pe.b ∧
+        ∀ F, parseTop (F + n) pts = .ok pe := by
+  obtain ⟨⟨ts, hts⟩, _⟩ := printable_toks_ok e esc hp
+  refine ⟨ts, hts, fun pts lo hpts hs => ?_⟩
+  obtain ⟨n, pe, hstrip, hparse⟩ := parse_unparse_tokens e esc hp ts hts pts hpts
+  obtain ⟨hn, hb, _⟩ := span_nesting (0 + n) lo pts pe hs (hparse 0)
+  exact ⟨n, pe, hstrip, hn, hb, hparse⟩
+
+/-! ## non-vacuity, and the text layer -/
+
+/-- `find [#amenity=cafe & [#a | b]] | filter {u -> gt (count u) 1}` with the pipeline in the client's flat shape -/
+def sample : SE :=
+  .call (.sym (bytes! "filter"))
+    (.cons (.call (.sym (bytes! "find"))
+        (.cons (.lit (.query (.and (.cons (.tagged (bytes! "#amenity") (bytes! "cafe"))
+          (.cons (.or (.cons (.keyed (bytes! "#a")) (.cons (.keyed (bytes! "b")) .nil))) .nil))))) .nil) false)
+      (.cons (.lambda [bytes! "u"]
+        (.call (.sym (bytes! "gt"))
+          (.cons (.call (.sym (bytes! "count")) (.cons (.sym (bytes! "u")) .nil) false)
+            (.cons (.lit (.int 1)) .nil)) false)) .nil)) true
+
+example : sample.printable false = true := by decide
+
+example : (match sample.toks true with | .ok ts => render ts | _ => []) =
+    bytes! "find [#amenity=cafe & [#a | b]] | filter {u -> gt (count u) 1}" := by decide
+
+/-- the text layer is where strings break (finding `string-needs-escape`): the printed form of the string
+`a"b` does not lex -/
+theorem string_escape_counterexample : lex (render [Tok.str (bytes! "a\"b")]) = .err := by decide
+
+/-- … while a plain string lexes back to the token it was printed from -/
+example : (match lex (render [Tok.sym (bytes! "f"), Tok.str (bytes! "a b")]) with
+    | .ok ts => ts.map (·.tok) | _ => []) = [Tok.sym (bytes! "f"), Tok.str (bytes! "a b")] := by decide
 
 end B6.Props.C20
